@@ -1,6 +1,7 @@
 (* C06 — no device behaviour or port failure can crash the driver; bounded writes. *)
 From GV Require Import Base.Bytes Base.Hex Base.LE Vedirect.Frame Vedirect.FrameFacts
-     Vedirect.Port Vedirect.Driver Vedirect.DriverFacts Vedirect.DriverSpec.
+     Vedirect.Port Vedirect.Driver Vedirect.DriverFacts Vedirect.DriverSpec Vedirect.ReadsFacts.
+From GV Require Import Tables.ObsTypes Gen.Obs Api.Api Api.ApiReads.
 
 (* for every logger configuration, every driver state (any buffered bytes, any device
    script, any write/read/flush fault schedule), every call kind and address: no panic *)
@@ -35,3 +36,18 @@ Theorem C06_one_write_per_exchange :
     (written (pt s') = written (pt s) \/ written (pt s') = written (pt s) ++ [tx_frame_data cmd data]).
 Proof. exact send_receive_one_write. Qed.
 Print Assumptions C06_one_write_per_exchange.
+
+(* only a bounded number of reads once the port reports no more data: every driver call, for
+   every state, device script and fault schedule, adds at most 8 Read calls answered from the
+   exhausted port when it reports end of data (EOF / timeout), and at most 8 * 100 when it
+   never reports it and answers (0, nil) (bufio gives up after 100 empty reads per fill) *)
+Theorem C06_reads_at_end : forall c idle k s,
+  (reads_at_end (pt (snd (do_call c idle k s))) <=
+   reads_at_end (pt s) + 8 * (if noprog (pt s) then max_empty_reads else 1))%nat.
+Proof. exact do_call_reads_at_end. Qed.
+Print Assumptions C06_reads_at_end.
+
+(* the same for one register read of the register API (Read*Register, any register) *)
+Theorem C06_api_reads_at_end : forall c idle r s, bounded 8 s (snd (read_register c idle r s)).
+Proof. exact read_register_reads. Qed.
+Print Assumptions C06_api_reads_at_end.
